@@ -108,11 +108,11 @@ def is_statement_position(n):
     return False
 
 
-def setj(n, **kw):
-    n.j = dict(n.j)
-    n.j.update(kw)
+def setj(node, **kw):
+    node.j = dict(node.j)
+    node.j.update(kw)
     if 'k' in kw:
-        n.k = kw['k']
+        node.k = kw['k']
 
 
 def normalise(fn):
@@ -250,3 +250,83 @@ def _scalar(t):
         return True
     return t in ('int', 'unsigned int', 'long', 'unsigned long', 'double', 'float', 'bool', 'char', 'unsigned char', 'short', 'unsigned short', 'uint8_t', 'uint16_t', 'uint32_t', 'uint64_t',
                  'int8_t', 'int16_t', 'int32_t', 'int64_t', 'size_t', 'long long', 'unsigned long long', 'gdstk::Tag', 'Tag')
+
+
+# ------------------------------------------------------------------------------------------------------
+# N-NAMES: names of locals carry no meaning. Rules written against the pinned tree mention some locals by name; to keep
+# them independent of a renaming, the locals of each function are relabelled with the names the corresponding locals
+# have in the pinned tree (sa/baseline_locals.json, produced by tools/mkbaseline.py): the declaration sequences
+# (type texts) of the two versions are aligned, and every aligned local takes the pinned name. A relabelling cannot
+# change what any rule decides about behaviour; unaligned locals keep their own names.
+import difflib
+import json
+
+_BASE = None
+
+
+def _baseline():
+    global _BASE
+    if _BASE is None:
+        p = os.path.join(os.path.dirname(os.path.abspath(__file__)), 'baseline_locals.json')
+        try:
+            with open(p) as fh:
+                _BASE = json.load(fh)
+        except (OSError, ValueError):
+            _BASE = {}
+    return _BASE
+
+
+def fkey(fn):
+    return '%s|%s|%s' % (fn.qn, fn.targs or '', fn.sig or '')
+
+
+def locals_of(fn):
+    out = []
+    seen = set()
+    for v in fn.body.walk():
+        if v.k == 'VarDecl' and v.d not in seen:
+            seen.add(v.d)
+            out.append(v)
+    return out
+
+
+def _tkey(t):
+    return (t or '').replace('const ', '').replace(' const', '').strip()
+
+
+def rename_to_baseline(fn):
+    if not ENABLED or fn.body is None or os.environ.get('GDSTK_SA_NO_RENAME'):
+        return
+    base = _baseline().get(fkey(fn))
+    if not base:
+        return
+    cur = locals_of(fn)
+    if [v.n for v in cur] == [b[0] for b in base]:
+        return
+    a = [_tkey(b[1]) for b in base]
+    b = [_tkey(v.t) for v in cur]
+    pairs_ = []
+    if a == b:
+        pairs_ = list(zip(base, cur))
+    else:
+        sm = difflib.SequenceMatcher(None, a, b, autojunk=False)
+        for blk in sm.get_matching_blocks():
+            for i in range(blk.size):
+                pairs_.append((base[blk.a + i], cur[blk.b + i]))
+    mapping = {}
+    for (bn, bt), v in pairs_:
+        if v.n != bn:
+            mapping[v.d] = bn
+    if not mapping:
+        return
+    # a new name must not collide with a local that keeps its name, nor with a parameter
+    keep = {v.n for v in cur if v.d not in mapping} | {p['n'] for p in fn.params}
+    targets = {}
+    for d, n in mapping.items():
+        targets.setdefault(n, []).append(d)
+    mapping = {d: n for d, n in mapping.items() if n not in keep and len(targets[n]) == 1}
+    if not mapping:
+        return
+    for x in fn.body.walk():
+        if x.k in ('VarDecl', 'DeclRefExpr') and x.d in mapping and (x.k == 'VarDecl' or x.dk in ('local', 'static')):
+            setj(x, n=mapping[x.d])
